@@ -147,8 +147,11 @@ def run_c16(ctx):
     # ------------------------------------------------------------ crop state
     state = t.weighted([("no-results", 2), ("some-results", 2), ("explicit-ids", 2)], "state")
     pre = []
-    if state != "no-results" and B > 1:
+    if state == "explicit-ids" and t.flag(1, 4, "everything-grown-already"):
+        pre = list(allb)  # explicit ids then mean: grow these again
+    elif state != "no-results" and B > 1:
         pre = t.perm(allb, "pre-grown")[: t.int_between(1, B - 1, "npre")]
+    if pre:
         call("pre-grower", lambda: xyzpy.Crop(name=NAME, parent_dir=root).grow(tuple(sorted(pre))),
              "pre-grow-raised")
     present = set(pre)
